@@ -18,7 +18,7 @@ def sh(cmd, env=None, timeout=6000):
     return p.returncode, p.stdout.decode('utf-8', 'replace')
 
 
-def one(sid, update):
+def one(sid, update, extra=()):
     d = os.path.join(VERIF, 'seeded', sid)
     meta = json.load(open(os.path.join(d, 'meta.json')))
     wt = '/tmp/ev/regress_%s' % sid
@@ -31,7 +31,8 @@ def one(sid, update):
         rc, out = sh(['git', '-C', wt, 'apply', os.path.join(d, 'patch.diff')])
         if rc != 0:
             return sid, {'error': 'patch does not apply: ' + out[-200:]}
-        props = [meta['property']] + [p for p in (meta.get('detected_by') or []) if p != meta['property']]
+        props = [meta['property']] + [p for p in list(meta.get('detected_by') or []) + list(extra) if p != meta['property']]
+        props = list(dict.fromkeys(props))
         for pid in props:
             env = dict(ENV, VERIF_REPO=wt, VERIF_REPLAYS='/tmp/ev/regress_rp_%s' % sid, VERIF_LOGS='/tmp/ev/regress_lg_%s' % sid)
             rc, out = sh([os.path.join(VERIF, 'bin', 'check'), pid], env=env)
@@ -58,13 +59,14 @@ def main():
     ap.add_argument('--only', default='')
     ap.add_argument('--jobs', type=int, default=2)
     ap.add_argument('--update', action='store_true')
+    ap.add_argument('--extra', default='', help='further properties to run, e.g. C03,C09')
     a = ap.parse_args()
     ids = sorted(os.path.basename(p) for p in glob.glob(os.path.join(VERIF, 'seeded', 'C*')))
     if a.only:
         ids = [i for i in ids if i in a.only.split(',')]
     bad = 0
     with ThreadPoolExecutor(a.jobs) as ex:
-        for sid, res in ex.map(lambda s: one(s, a.update), ids):
+        for sid, res in ex.map(lambda s: one(s, a.update, [p for p in a.extra.split(',') if p]), ids):
             det = sorted(p for p, r in res.items() if isinstance(r, dict) and r.get('rc') == 1)
             other = {p: r.get('rc') for p, r in res.items() if isinstance(r, dict) and r.get('rc') not in (0, 1)}
             own = sid[:3] in det
